@@ -77,6 +77,7 @@ RULE_TRIGGERS = [
     'for x in y:\n    try:\n        pass\n    finally:\n        continue\n', 'try:\n    pass\nfinally:\n    break\n',
     'try:\n    pass\nexcept:\n    pass\nexcept A:\n    pass\n', 'try:\n    pass\nexcept* A:\n    pass\n',
     'try:\n    pass\nexcept A as b.c:\n    pass\n',
+    'def f(*,): pass\n', 'lambda *,: 0\n', 'def f(*, ): pass', 'def f(/,): pass\n', 'def f(*, a): pass\n', 'lambda *, k=1: k\n', 'def f(a, *,): pass\n',
     'def f(a, a): pass\n', 'def f(a=1, b): pass\n', 'def f(*, a): pass\n', 'def f(*): pass\n', 'def f(a, /, b): pass\n',
     'def f(/): pass\n', 'def f(*a, *b): pass\n', 'def f(**a, b): pass\n', 'lambda a, a: 1\n', 'lambda a=1, b: 1\n',
     'lambda *: 1\n', 'def f(a, *, b, **c) -> x: pass\n', 'def f(a: int = 1, *b: x, c: y = 2, **d: z): pass\n',
